@@ -258,6 +258,31 @@ def Causal (sizeQ sizeR : List Bytes → Option Size) (σ : Sys) : List Ev → P
   | .client d :: rest => Causal sizeQ sizeR (sysStep sizeQ sizeR σ (.client d)).1 rest
   | .server e :: rest => σ.s.phase = .wait ∧ Causal sizeQ sizeR (sysStep sizeQ sizeR σ (.server e)).1 rest
 
+/-- the environment's side of causality, stated on what the origin can observe: a segment of the origin arrives only while
+    the upstream reader expects or reads a response (a request has been forwarded and not yet answered) -/
+def Expected (sizeQ sizeR : List Bytes → Option Size) (σ : Sys) : List Ev → Prop
+  | [] => True
+  | .client d :: rest => Expected sizeQ sizeR (sysStep sizeQ sizeR σ (.client d)).1 rest
+  | .server e :: rest => σ.c.phase ≠ .wait ∧ Expected sizeQ sizeR (sysStep sizeQ sizeR σ (.server e)).1 rest
+
+/-- while a response is outstanding the reader of the client stream waits -/
+def Inv (σ : Sys) : Prop := σ.c.phase ≠ .wait → σ.s.phase = .wait
+
+def isMsg : Out → Bool
+  | .msg _ _ => true
+  | _ => false
+
+/-- the completed messages among the outputs, in order: `true` = a request was forwarded, `false` = a response was relayed -/
+def msgsOf : List SysOut → List Bool
+  | [] => []
+  | .request o :: rest => if isMsg o then true :: msgsOf rest else msgsOf rest
+  | .response o :: rest => if isMsg o then false :: msgsOf rest else msgsOf rest
+
+/-- `altEnd t l = some t'`: `l` alternates starting with `t`, and `t'` is what comes next -/
+def altEnd : Bool → List Bool → Option Bool
+  | t, [] => some t
+  | t, x :: xs => if x = t then altEnd (!t) xs else none
+
 def clientBytes : List Ev → Bytes
   | [] => []
   | .client d :: rest => d ++ clientBytes rest
